@@ -34,6 +34,10 @@ pub async fn scenario(w: World, h: Hist, trace: bool) -> Outcome {
     }
     let st = |w: usize| cfg.strengths.get(w).copied().unwrap_or(0);
     let d_ns = cfg.deadline_ms * MS;
+    // No verdict for anything that happens close to (or after) a possible deadline expiry of another
+    // writer: worker period (50 ms) + sleep jitter + clock-read inflation of the operation itself
+    // + 10 ms, doubled for the two ends (write -> reception, timer -> check).
+    let boundary_margin = 2 * (50 * MS + cfg.jitter + 10 * MS);
     let mut live: BTreeMap<u32, Live> = BTreeMap::new();
     let mut handles: BTreeMap<u32, dust_dds::infrastructure::instance::InstanceHandle> = BTreeMap::new();
     let mut wreg: Vec<Vec<u32>> = vec![Vec::new(); cfg.n_writers];
@@ -186,7 +190,7 @@ pub async fn scenario(w: World, h: Hist, trace: bool) -> Outcome {
                 let age = now - *t;
                 if slept - *sl > 2 * d_ns + 150 * MS {
                     expired.push(*v);
-                } else if age > d_ns - 10 * MS {
+                } else if age > d_ns - boundary_margin {
                     unsure = true;
                 }
             }
